@@ -3,6 +3,7 @@ import GtirbModel.Proto
 import GtirbModel.DeepEq
 import GtirbModel.ProtoWF
 import GtirbModel.MsgWF
+import GtirbModel.DeepEqNodes
 /-! Model E, line protocol (`model msg`): the V format (an `IRV`), the M format
 (an `MIR`) and the commands `tomsg`, `frommsg`, `roundtrip`, `deepeq`,
 `canoneq`, `header`, `loadhdr`. Tokens are separated by single spaces, byte and
@@ -455,6 +456,10 @@ def driverStep (line : String) : String :=
   | "deepeq" :: ts =>
     match readTwoIRV ts with
     | some (a, b) => tBool (deepEq a b)
+    | none => "bad-op"
+  | "deepeqnodes" :: ts =>
+    match readTwoIRV ts with
+    | some (a, b) => " ".intercalate ((nodeVerdicts a b).foldr insertStr [])
     | none => "bad-op"
   | "canoneq" :: ts =>
     match readTwoIRV ts with
